@@ -649,21 +649,135 @@ func bufferLayout(fn *core.Func, name string) map[int]string {
 	return lay
 }
 
+// hashPiece is one contribution to the input of a hash computation.
+type hashPiece struct {
+	s string
+	v *core.V
+}
+
+// hashInputPieces lists, in order, what is fed to the hash in fn: the
+// arguments of Write calls and of md5.Sum.  An argument that is a local
+// byte slice built by an initial value and a chain of appends is expanded to
+// its parts, each at the vertex that adds it.
+func hashInputPieces(fn *core.Func, g *core.Graph) (pieces []hashPiece, ok bool) {
+	info := fn.Info()
+	sinks := append(callVerticesSuffix(g, ".Write"), callVertices(g, "crypto/md5.Sum")...)
+	sort.Slice(sinks, func(i, j int) bool { return sinks[i].Call.Pos() < sinks[j].Call.Pos() })
+	ok = true
+	for _, w := range sinks {
+		if len(w.Call.Args) != 1 {
+			continue
+		}
+		arg := ast.Unparen(w.Call.Args[0])
+		if se, isSl := arg.(*ast.SliceExpr); isSl && se.Low == nil && se.High == nil {
+			arg = ast.Unparen(se.X)
+		}
+		id, isID := arg.(*ast.Ident)
+		var obj types.Object
+		if isID {
+			obj = info.ObjectOf(id)
+		}
+		type app struct {
+			as   *ast.AssignStmt
+			call *ast.CallExpr
+		}
+		var apps []app
+		if obj != nil {
+			ast.Inspect(fn.Decl.Body, func(n ast.Node) bool {
+				as, isAs := n.(*ast.AssignStmt)
+				if !isAs || len(as.Lhs) != 1 || len(as.Rhs) != 1 || as.Pos() > w.Call.Pos() {
+					return true
+				}
+				l, isL := ast.Unparen(as.Lhs[0]).(*ast.Ident)
+				call, isC := ast.Unparen(as.Rhs[0]).(*ast.CallExpr)
+				if !isL || !isC || info.ObjectOf(l) != obj || core.CalleeKey(info, call) != "builtin.append" || len(call.Args) < 2 {
+					return true
+				}
+				if b, isB := ast.Unparen(call.Args[0]).(*ast.Ident); isB && info.ObjectOf(b) == obj {
+					apps = append(apps, app{as, call})
+				}
+				return true
+			})
+		}
+		if len(apps) == 0 {
+			pieces = append(pieces, hashPiece{hashArg(fn, w.Call.Args[0]), w.V})
+			continue
+		}
+		// the initial value of the buffer
+		for _, dv := range defVertices(g, obj) {
+			var init ast.Expr
+			switch x := dv.AST.(type) {
+			case *ast.AssignStmt:
+				if x.Tok != token.DEFINE {
+					continue
+				}
+				for i, l := range x.Lhs {
+					if l2, isL := l.(*ast.Ident); isL && info.ObjectOf(l2) == obj && i < len(x.Rhs) {
+						init = x.Rhs[i]
+					}
+				}
+			case *ast.ValueSpec:
+				for i, n := range x.Names {
+					if info.ObjectOf(n) == obj && i < len(x.Values) {
+						init = x.Values[i]
+					}
+				}
+			}
+			if init == nil {
+				continue
+			}
+			init = ast.Unparen(init)
+			switch x := init.(type) {
+			case *ast.CompositeLit:
+				if len(x.Elts) > 0 {
+					pieces = append(pieces, hashPiece{hashArg(fn, x), dv})
+				}
+			case *ast.CallExpr:
+				key := core.CalleeKey(info, x)
+				if key == "builtin.make" && len(x.Args) >= 2 {
+					if k, isK := core.IntConst(info, x.Args[1]); isK && k == 0 {
+						continue
+					}
+				}
+				if tv, isT := info.Types[x.Fun]; isT && tv.IsType() && len(x.Args) == 1 && core.IsNil(info, x.Args[0]) {
+					continue
+				}
+				ok = false
+			default:
+				if !core.IsNil(info, init) {
+					ok = false
+				}
+			}
+		}
+		for _, a := range apps {
+			v := g.VertexOf(a.as)
+			if v == nil {
+				ok = false
+				continue
+			}
+			if a.call.Ellipsis.IsValid() {
+				pieces = append(pieces, hashPiece{hashArg(fn, a.call.Args[1]), v})
+				continue
+			}
+			var parts []string
+			for _, el := range a.call.Args[1:] {
+				parts = append(parts, byteExpr(fn, el))
+			}
+			pieces = append(pieces, hashPiece{strings.Join(parts, ","), v})
+		}
+	}
+	return pieces, ok
+}
+
 func ruleKeyForRefLayout(c *core.Ctx) {
 	const rule = "C10-R2"
 	c.Check(rule, "pdf.(*stdSecHandler).KeyForRef", "for revisions 2-4 the per-object key is MD5(file key | object number bytes 0,1,2 | generation bytes 0,1 | 'sAlT' for AES) truncated to min(n+5,16); for revisions 5-6 it is the file key itself", func(o *core.Ob) {
 		fn := c.Prog.Func("pdf", "(*stdSecHandler).KeyForRef")
 		g := fn.Graph()
 		info := fn.Info()
-		var seq []string
-		var saltV *core.V
-		for _, w := range callVerticesSuffix(g, ".Write") {
-			o.At(fn.Site(w.Call, "hash input"))
-			s := hashArg(fn, w.Call.Args[0])
-			seq = append(seq, s)
-			if s == `"sAlT"` {
-				saltV = w.V
-			}
+		pieces, recognised := hashInputPieces(fn, g)
+		if !o.Shape(recognised && len(pieces) > 0, "the construction of the hash input was not recognised") {
+			return
 		}
 		// resolve num/gen to their definitions
 		repl := map[string]string{}
@@ -675,75 +789,156 @@ func ruleKeyForRefLayout(c *core.Ctx) {
 			}
 			return true
 		})
-		norm := func(s string) string {
-			parts := strings.Split(s, ",")
-			for i, p := range parts {
-				if j := strings.Index(p, ">>"); j > 0 {
-					base := p[:j]
-					for k := 0; k < 3; k++ {
-						if r, ok := repl[base]; ok && !strings.Contains(r, "make(") {
-							base = r
-						}
+		norm := func(p string) string {
+			if j := strings.Index(p, ">>"); j > 0 {
+				base := p[:j]
+				for k := 0; k < 3; k++ {
+					if r, ok := repl[base]; ok && !strings.Contains(r, "make(") {
+						base = r
 					}
-					// strip integer conversions
-					for _, conv := range []string{"uint32(", "uint16(", "uint64(", "int("} {
-						if strings.HasPrefix(base, conv) && strings.HasSuffix(base, ")") {
-							base = base[len(conv) : len(base)-1]
-						}
-					}
-					parts[i] = base + p[j:]
 				}
+				// strip integer conversions
+				for _, conv := range []string{"uint32(", "uint16(", "uint64(", "int("} {
+					if strings.HasPrefix(base, conv) && strings.HasSuffix(base, ")") {
+						base = base[len(conv) : len(base)-1]
+					}
+				}
+				return base + p[j:]
 			}
-			return strings.Join(parts, ",")
+			return p
 		}
-		for i := range seq {
-			seq[i] = norm(seq[i])
+		var seq []string
+		var saltV *core.V
+		for _, p := range pieces {
+			if p.v.AST != nil {
+				o.At(fn.Site(p.v.AST, "hash input"))
+			}
+			for _, el := range strings.Split(p.s, ",") {
+				seq = append(seq, norm(el))
+			}
+			if p.s == `"sAlT"` {
+				saltV = p.v
+			}
 		}
-		want := []string{"sec.key", "ref.Number()>>0,ref.Number()>>8,ref.Number()>>16,ref.Generation()>>0,ref.Generation()>>8", `"sAlT"`}
+		want := []string{"sec.key", "ref.Number()>>0", "ref.Number()>>8", "ref.Number()>>16", "ref.Generation()>>0", "ref.Generation()>>8", `"sAlT"`}
 		o.Fact("per-object key input: %v", seq)
 		if strings.Join(seq, " | ") != strings.Join(want, " | ") {
 			o.Fail("per-object key input is %v, ISO 32000-2 7.6.3.2 says %v", seq, want)
 		}
 		if saltV != nil {
-			conds := dominatingConds(g, saltV)
-			okSalt := false
-			for _, cnd := range conds {
-				if cnd == "cf.Cipher == cipherAES" {
-					okSalt = true
+			isAES := func(e ast.Expr) bool {
+				if id, ok := ast.Unparen(e).(*ast.Ident); ok {
+					if cst, ok := info.ObjectOf(id).(*types.Const); ok {
+						return cst.Name() == "cipherAES"
+					}
 				}
+				return false
 			}
-			o.Require(okSalt, "the 'sAlT' suffix is not restricted to AES (guards %v)", conds)
+			isCipher := func(e ast.Expr) bool {
+				_, name, ok := selName(e)
+				return ok && name == "Cipher"
+			}
+			okSalt := g.GuardedBy(saltV, func(a core.Atom) bool {
+				if a.Tag != nil {
+					return !a.Neg && isCipher(a.Tag) && isAES(a.Expr)
+				}
+				if cmp, ok := a.AsCmp(); ok && cmp.Op == token.EQL {
+					return (isCipher(cmp.L) && isAES(cmp.R)) || (isCipher(cmp.R) && isAES(cmp.L))
+				}
+				return false
+			})
+			o.Require(okSalt, "the 'sAlT' suffix is not restricted to AES (guards %v)", dominatingConds(g, saltV))
 		}
 		// key length
+		var minCalls []*ast.CallExpr
 		okLen := false
 		ast.Inspect(fn.Decl.Body, func(n ast.Node) bool {
 			if call, ok := n.(*ast.CallExpr); ok && core.CalleeKey(info, call) == "builtin.min" && len(call.Args) == 2 {
-				a := strings.ReplaceAll(core.ExprStr(call.Args[0]), " ", "")
-				b, _ := core.IntConst(info, call.Args[1])
-				if a == "sec.keyBytes+5" && b == 16 {
-					okLen = true
+				minCalls = append(minCalls, call)
+				for i := 0; i < 2; i++ {
+					sum, isSum := ast.Unparen(call.Args[i]).(*ast.BinaryExpr)
+					b, _ := core.IntConst(info, call.Args[1-i])
+					if !isSum || sum.Op != token.ADD || b != 16 {
+						continue
+					}
+					for _, pr := range [][2]ast.Expr{{sum.X, sum.Y}, {sum.Y, sum.X}} {
+						_, name, isSel := selName(pr[0])
+						if five, isC := core.IntConst(info, pr[1]); isSel && name == "keyBytes" && isC && five == 5 {
+							okLen = true
+						}
+					}
 				}
 			}
 			return true
 		})
 		o.Require(okLen, "the per-object key length is not min(n+5, 16)")
-		// revisions
-		rev := map[int64]string{}
-		for _, bv := range g.BranchVertices() {
-			if bv.Cond.Tag != nil && strings.HasSuffix(core.ExprStr(bv.Cond.Tag), ".R") {
-				k, _ := core.IntConst(info, bv.Cond.Expr)
-				for v := range g.ReachFrom(succ(bv, core.EdgeTrue), true, nil) {
-					if rs, ok := v.AST.(*ast.ReturnStmt); ok && len(rs.Results) == 2 && core.IsNil(info, rs.Results[1]) {
-						rev[k] = strings.ReplaceAll(core.ExprStr(rs.Results[0]), " ", "")
-					}
+		// revisions: which returns can be reached under each value of R
+		var rexpr ast.Expr
+		ast.Inspect(fn.Decl.Body, func(n ast.Node) bool {
+			if se, ok := n.(*ast.SelectorExpr); ok && se.Sel.Name == "R" && rexpr == nil {
+				if _, isField := info.ObjectOf(se.Sel).(*types.Var); isField {
+					rexpr = se
 				}
 			}
+			return true
+		})
+		if !o.Shape(rexpr != nil, "no test of the revision") {
+			return
 		}
-		for _, k := range []int64{2, 3, 4} {
-			o.Require(rev[k] == "h.Sum(nil)[:l]", "revision %d returns %s, want the truncated hash", k, rev[k])
+		isDigest := func(at *core.V, e ast.Expr) bool {
+			for _, vc := range valueCases(g, at, e, 2) {
+				call, ok := ast.Unparen(vc.Expr).(*ast.CallExpr)
+				if !ok {
+					return false
+				}
+				key := core.CalleeKey(info, call)
+				if key != "crypto/md5.Sum" && !strings.HasSuffix(key, ".Sum") {
+					return false
+				}
+			}
+			return true
 		}
-		for _, k := range []int64{5, 6} {
-			o.Require(rev[k] == "sec.key", "revision %d returns %s, want the file key", k, rev[k])
+		isLen := func(at *core.V, e ast.Expr) bool {
+			for _, vc := range valueCases(g, at, e, 2) {
+				call, ok := ast.Unparen(vc.Expr).(*ast.CallExpr)
+				if !ok || core.CalleeKey(info, call) != "builtin.min" {
+					return false
+				}
+			}
+			return true
+		}
+		classify := func(at *core.V, e ast.Expr) string {
+			e = ast.Unparen(e)
+			if _, name, ok := selName(e); ok && name == "key" {
+				return "the file key"
+			}
+			if se, ok := e.(*ast.SliceExpr); ok && se.High != nil && isDigest(at, se.X) && isLen(at, se.High) {
+				if se.Low == nil {
+					return "the truncated hash"
+				}
+				if k, ok := core.IntConst(info, se.Low); ok && k == 0 {
+					return "the truncated hash"
+				}
+			}
+			return strings.ReplaceAll(core.ExprStr(e), " ", "")
+		}
+		for _, k := range []int64{2, 3, 4, 5, 6} {
+			want := "the truncated hash"
+			if k >= 5 {
+				want = "the file key"
+			}
+			n := 0
+			reach := reachUnder(c, fn, g, core.Atom{Tag: rexpr, Expr: &ast.BasicLit{Kind: token.INT, Value: itoa(int(k))}})
+			for _, rv := range g.Returns() {
+				rs, ok := rv.AST.(*ast.ReturnStmt)
+				if !ok || len(rs.Results) != 2 || !core.IsNil(info, rs.Results[1]) || !reach[rv] {
+					continue
+				}
+				n++
+				got := classify(rv, rs.Results[0])
+				o.Require(got == want, "revision %d returns %s, want %s", k, got, want)
+			}
+			o.Require(n > 0, "revision %d has no successful return", k)
 		}
 	})
 }
